@@ -1,3 +1,105 @@
-import DosModel.Model.Util
--- stub: no model driver for this property yet
-def main : IO Unit := Dos.lineLoop (fun _ => "unimplemented")
+import DosModel.Model.Events
+import DosModel.Gen.EventTable
+/-!
+Line-protocol driver for C18 (grammar: go/props/c18/c18.go).
+
+  fe <items>                 `firstEvent` on exactly this arrival order
+  mg <stream/stream/…>       merge + firstEvent, compared as a set (sorted)
+  sub <nws> <types> <H> <S> <drop>
+                             real adaptor: delivered node events are rendered through the REGENERATED
+                             subscription table (Gen.EventTable), the delivered set is the fold over the
+                             emitted items
+-/
+namespace Dos.C18Drv
+open Dos Dos.Events Dos.Gen.EventTable
+
+def runItems (xs : List DItem) : List String := firstEvent (fun b => b) xs
+
+/-- zero value of a Go field type, as the harness renders it -/
+def zeroText (ty : String) : String :=
+  if ty == "*big.Int" then "nil"
+  else if ty == "uint8" || ty == "uint64" then "0"
+  else if ty == "bool" then "false"
+  else if ty == "[2]*big.Int" then "nil,nil"
+  else if ty == "[4]*big.Int" then "nil,nil,nil,nil"
+  else if ty == "common.Address" then String.join (List.replicate 20 "00")
+  else if ty == "[32]byte" then String.join (List.replicate 32 "00")
+  else "-"
+
+def lookupStr {β : Type} (l : List (String × β)) (k : String) : Option β :=
+  (l.find? (fun p => p.1 == k)).map (·.2)
+
+/-- render the node event the table entry of subscription index `t` builds from ABI values `vals` -/
+def renderLog (t : Nat) (vals : List String) : String :=
+  match entries.find? (fun e => e.index == t) with
+  | none => s!"?no-entry-{t}"
+  | some e =>
+    match bindingStructs.find? (fun s => s.name == e.binding), nodeStructs.find? (fun s => s.name == e.target) with
+    | some b, some n =>
+      let bfields := (b.fields.filter (fun f => f.1 != "Raw")).map (·.1)
+      let env := bfields.zip vals
+      let parts := n.fields.map (fun (f : String × String) =>
+        let v := match lookupStr e.assigns f.1 with
+          | some (.field src) => (lookupStr env src).getD "?missing"
+          | some (.mapAddrBytes src) => (lookupStr env src).getD "?missing"
+          | some (.other _) => "?other"
+          | none => zeroText f.2
+        f.1 ++ "=" ++ v)
+      e.target ++ "{" ++ String.intercalate ";" parts ++ "}"
+    | _, _ => s!"?no-struct-{t}"
+
+structure HLog where
+  t : Nat
+  blockN : Nat
+  tx : Nat
+  index : Nat
+  vals : List String
+
+def parseHLog (s : String) : Option HLog :=
+  match s.splitOn ";" with
+  | t :: bn :: tx :: ix :: vals => do
+    pure { t := ← t.toNat?, blockN := ← bn.toNat?, tx := ← tx.toNat?, index := ← ix.toNat?, vals := vals }
+  | _ => none
+
+def parseStreamItem (H : List HLog) (s : String) : Option DItem := do
+  let removed := s.endsWith "r"
+  let num := if removed then (s.dropEnd 1).toString else s
+  let j ← num.toNat?
+  let l ← H[j]?
+  pure (.log { data := (String.intercalate ";" l.vals).toUTF8.toList, blockN := l.blockN, tx := natBE 32 l.tx,
+               index := l.index, removed := removed, payload := renderLog l.t l.vals })
+
+def parseStream (H : List HLog) (s : String) : Option (List DItem) :=
+  if s == "-" then some [] else (s.splitOn ",").mapM (parseStreamItem H)
+
+def step (line : String) : String :=
+  match words line with
+  | ["fe", items] =>
+    match parseItems items with
+    | some xs => showOut (runItems xs)
+    | none => "bad-op"
+  | ["mg", streams] =>
+    match (streams.splitOn "/").mapM parseItems with
+    | some ss => showOut (sortStrings (runItems ss.flatten))
+    | none => "bad-op"
+  | ["sub", _, _, hs, ss, drop] =>
+    let H? := if hs == "-" then some [] else (hs.splitOn "|").mapM parseHLog
+    match H? with
+    | none => "bad-op"
+    | some H =>
+      match (ss.splitOn "/").mapM (parseStream H) with
+      | none => "bad-op"
+      | some streams =>
+        -- items a dropped endpoint never emitted are not part of the run
+        let streams := match drop.splitOn "@" with
+          | [e, pos] => match e.toNat?, pos.toNat? with
+            | some e, some pos => (List.range streams.length).zipWith (fun i (s : List DItem) => if i == e then s.take pos else s) streams
+            | _, _ => streams
+          | _ => streams
+        let out := sortStrings (runItems streams.flatten)
+        "out " ++ (if out.isEmpty then "-" else String.intercalate "|" out)
+  | _ => "bad-op"
+
+end Dos.C18Drv
+
+def main : IO Unit := Dos.lineLoop Dos.C18Drv.step
